@@ -25,6 +25,9 @@ Session steps (JSON-able):
                            second list, the rest follows at once (long before the screen's complete_wait is over).
                            What arrived is exactly these events: the first list as one batch (if not empty), the
                            second list as the next batch - nothing else, however long the loop runs afterwards
+    ["suspend"]            job control: the application is suspended (SIGTSTP) and resumed (SIGCONT); the display is
+                           stopped and started again by the screen; the resume reaches the application as a batch
+                           ["window resize"] (the terminal's size itself is unchanged)
     a key "esc" (a lone ESC byte after which nothing follows) is complete only once the screen's complete_wait is
     over: it arrives as a batch of its own then
 
@@ -35,7 +38,8 @@ Test application (fixture, same text in bounded/C12.py):
     pop-up probe      keypress: handles "a" (pk+=1) and "c" (closes the pop-up); returns every other key
                       mouse_event: as the base probe (pm+=1)
     unhandled input   "T": schedules one alarm (it fires before the next stimulus is fed);
-                      "Q": raises ExitMainLoop; everything else: returns None
+                      "Q": raises ExitMainLoop; "S": stops the display and starts it again ("shells out"; no
+                      application state changes); everything else: returns None
     alarm callback    a+=1;  watch_pipe callback  p+=1
     pop-up geometry   left=1, top=1, width=4, height=2 (only shown when MainLoop(pop_ups=True))
 """
@@ -89,7 +93,7 @@ def expected_events(case):
             steps.append(step)
     for step in steps:
         pending_alarms = 0
-        if step[0] in ("keys", "resize", "mixed"):
+        if step[0] in ("keys", "resize", "mixed", "suspend"):
             batch = list(step[1]) if step[0] in ("keys", "mixed") else ["window resize"]
             ev.append(["filter", batch])
             if hit("filter"):
